@@ -353,6 +353,45 @@ pub fn relocations(menu: &[Item], hist: &[usize]) -> Vec<Relocation> {
     out
 }
 
+/// All *extension* relocations of `hist`: an extension X of a type (or of the schema) that stands
+/// before the first following definition D of its target is moved to just behind D, provided no
+/// other extension of the same target lies between X and D (same-target extensions never change
+/// their relative order) and X does not jump over a definition of another target. This is the
+/// statement's "moving an extension before its definition instead of after it", with everything
+/// else (extensions of other, possibly never-defined, types) staying where it is.
+/// Returns (position of X, position of D, relocated history).
+pub fn ext_relocations(menu: &[Item], hist: &[usize]) -> Vec<(usize, usize, Vec<usize>)> {
+    let mut out = Vec::new();
+    for (p, &xi) in hist.iter().enumerate() {
+        let x = &menu[xi];
+        if x.role != Role::Ext {
+            continue;
+        }
+        // an earlier definition of the target: X is not an orphan on arrival
+        if hist[..p].iter().any(|&j| menu[j].role == Role::Def && menu[j].target == x.target) {
+            continue;
+        }
+        for d in p + 1..hist.len() {
+            let e = &menu[hist[d]];
+            if e.target == x.target {
+                if e.role == Role::Def && e.kind != Kind::Directive {
+                    let mut h: Vec<usize> = Vec::with_capacity(hist.len());
+                    h.extend_from_slice(&hist[..p]);
+                    h.extend_from_slice(&hist[p + 1..=d]);
+                    h.push(xi);
+                    h.extend_from_slice(&hist[d + 1..]);
+                    out.push((p, d, h));
+                }
+                break; // another extension of the same target, or the definition: stop
+            }
+            if e.role == Role::Def && e.kind != Kind::Directive {
+                break; // do not jump over a definition of another target (type-map order)
+            }
+        }
+    }
+    out
+}
+
 // ---------------------------------------------------------------------------------------------
 // Replay on real objects
 // ---------------------------------------------------------------------------------------------
